@@ -11,69 +11,156 @@ PR = "thejoker.prior"
 ACC = ("t", "rv", "err", "ids")
 
 
+def _accumulators(fn):
+    """list names that are appended to inside a loop: name -> [(append call, loop)]"""
+    acc = {}
+    for l in A.walk_local(fn):
+        if isinstance(l, ast.For):
+            for c in A.calls_in(l):
+                if A.last_attr(c) == "append" and isinstance(c.func, ast.Attribute) and isinstance(c.func.value, ast.Name) and len(c.args) == 1:
+                    if A.enclosing(c, (ast.For,)) is l:
+                        acc.setdefault(c.func.value.id, []).append((c, l))
+    return acc
+
+
+def analyse_merge(fn):
+    """Role-based view of validate_prepare_data: the merged RVData(...) call, the accumulator behind each of its arguments and behind the ids array."""
+    rv = [c for c in A.calls_in(fn) if A.call_name(c) == "RVData"]
+    if len(rv) != 1:
+        return None
+    call = rv[0]
+    st = A.enclosing_stmt(call)
+    acc = _accumulators(fn)
+    roles = {}
+    res = {}
+    for role, kw in (("t", "t"), ("rv", "rv"), ("err", "rv_err")):
+        a_ = A.get_arg(call, None, kw)
+        if a_ is None:
+            continue
+        r = A.inline_temporaries(a_, st, fn)
+        res[role] = r
+        names = [n.id for n in ast.walk(r) if isinstance(n, ast.Name) and n.id in acc]
+        if len(set(names)) == 1:
+            roles[role] = names[0]
+    # ids: second argument of the multi-source design-matrix call
+    tm = [c for c in A.calls_in(fn) if A.call_name(c) == "get_trend_design_matrix" and len(c.args) >= 2 and not (isinstance(c.args[1], ast.Constant) and c.args[1].value is None)]
+    ids_expr = None
+    if tm:
+        ids_expr = A.inline_temporaries(tm[0].args[1], A.enclosing_stmt(tm[0]), fn)
+        core = ids_expr
+        while isinstance(core, ast.Subscript):
+            core = core.value   # a re-alignment ids[perm] is judged by C08-ORDER
+        names = [n.id for n in ast.walk(core) if isinstance(n, ast.Name) and n.id in acc]
+        if len(set(names)) == 1:
+            roles["ids"] = names[0]
+        res["ids"] = ids_expr
+    return {"call": call, "stmt": st, "acc": acc, "roles": roles, "resolved": res, "tm": tm}
+
+
 def check_lock(ctx):
     R = "C08-LOCK"
-    ctx.rule(R, "validate_prepare_data: the four accumulators (times, velocities, errors, ids) are appended exactly once per source, unconditionally after the type checks, "
-                "all from the same source d (ids = [key] * len(d)); velocities and errors are stripped in ONE common unit fixed by the first source; each accumulator is "
-                "concatenated once and the merged RVData is built from exactly those arrays with that unit; list input is keyed by position.")
+    ctx.rule(R, "validate_prepare_data, role-based (local names are irrelevant): the arrays handed to the merged RVData(t=, rv=, rv_err=) and the ids array handed to the design "
+                "matrix are each np.concatenate of ONE list that is appended exactly once per source, unconditionally, in the loop over the sources, from the same source d = "
+                "data[k]: times d.t.tcb.mjd, velocities / errors stripped in ONE common unit fixed by the first source and re-labelled with it, ids [k] * len(d); list input is "
+                "keyed by position.")
     fn = ctx.prog.func(DH, "validate_prepare_data", R)
-    loops = [l for l in A.walk_local(fn) if isinstance(l, ast.For) and canon(l.iter) in (canon(parse("data.keys()")), "data", canon(parse("data.items()")))]
-    if len(loops) != 1:
-        ctx.undecided(R, fn, "source loop", "expected one loop over the sources, found %d" % len(loops))
+    M = analyse_merge(fn)
+    if M is None:
+        ctx.violate(R, fn, "one merged RVData", "the multi-source path does not build exactly one merged RVData", key="merge")
         return None
-    loop = loops[0]
-    k = loop.target.id if isinstance(loop.target, ast.Name) else None
+    roles, acc, res = M["roles"], M["acc"], M["resolved"]
+    for role in ACC:
+        if role not in roles:
+            ctx.violate(R, M["stmt"], "`%s` of the merged data comes from a per-source accumulator" % role,
+                        "argument resolves to `%s`, which is not the concatenation of one list filled in the source loop" % (A.unparse(res[role])[:70] if role in res else None), key="role:" + role)
+    if set(roles) != set(ACC):
+        return fn, None, M["call"]
+    loops = {id(l): l for r_ in roles.values() for c, l in acc[r_]}
+    if len(loops) != 1:
+        ctx.violate(R, fn, "all four accumulators are filled in one loop over the sources", "they are filled in %d different loops" % len(loops), key="one-loop")
+        return fn, None, M["call"]
+    loop = list(loops.values())[0]
+    okloop = canon(loop.iter) in (canon(parse("data.keys()")), "data", canon(parse("data.items()")), canon(parse("list(data.keys())")))
+    ctx.check(R, loop, "the loop runs over every source", okloop, "loop iterates `%s`" % A.unparse(loop.iter), key="loop-iter")
+    k = loop.target.id if isinstance(loop.target, ast.Name) else (loop.target.elts[0].id if isinstance(loop.target, ast.Tuple) else None)
+    dsub = "data[%s]" % k
     want = {
-        "t": ["d.t.tcb.mjd", "d._t_bmjd"],
-        "rv": ["d.rv.to_value(rv_unit)", "d.rv.to(rv_unit).value"],
-        "err": ["d.rv_err.to_value(rv_unit)", "d.rv_err.to(rv_unit).value"],
-        "ids": ["[%s] * len(d)" % k, "np.full(len(d), %s)" % k, "np.repeat(%s, len(d))" % k],
+        "t": ["%s.t.tcb.mjd" % dsub, "%s._t_bmjd" % dsub],
+        "rv": ["%s.rv.to_value(RVU)" % dsub, "%s.rv.to(RVU).value" % dsub],
+        "err": ["%s.rv_err.to_value(RVU)" % dsub, "%s.rv_err.to(RVU).value" % dsub],
+        "ids": ["[%s] * len(%s)" % (k, dsub), "np.full(len(%s), %s)" % (dsub, k), "np.repeat(%s, len(%s))" % (k, dsub)],
     }
-    apps = {}
-    for c in A.calls_in(loop):
-        if A.last_attr(c) == "append" and isinstance(c.func, ast.Attribute) and canon(c.func.value) in ACC:
-            apps.setdefault(canon(c.func.value), []).append(c)
-    for acc in ACC:
-        cs = apps.get(acc, [])
+    unit_names = set()
+    for role in ACC:
+        cs = acc[roles[role]]
         if len(cs) != 1:
-            ctx.violate(R, loop, "`%s` appended once per source" % acc, "`%s` is appended %d times per source: the arrays fall out of step" % (acc, len(cs)), key="once:" + acc)
+            ctx.violate(R, loop, "`%s` appended once per source" % role, "appended %d times per source: the arrays fall out of step" % len(cs), key="once:" + role)
             continue
-        c = cs[0]
+        c = cs[0][0]
         st = A.enclosing_stmt(c)
         direct = A.block_of(st)[0] is loop
-        ctx.check(R, c, "`%s` appended unconditionally" % acc, direct, "the append is nested under `%s`" % (A.unparse(A.guards_of(c, stop=loop)[0][0]) if A.guards_of(c, stop=loop) else "a compound statement"), key="uncond:" + acc)
-        v = A.inline_temporaries(c.args[0], st, fn) if False else c.args[0]
-        ok = any(canon(v) == canon(parse(w)) for w in want[acc])
-        ctx.check(R, c, "`%s` takes the matching piece of the same source" % acc, ok, "appends `%s`" % A.unparse(v)[:60], key="value:" + acc)
+        ctx.check(R, c, "`%s` appended unconditionally" % role, direct, "the append is nested under `%s`" % (A.unparse(A.guards_of(c, stop=loop)[0][0]) if A.guards_of(c, stop=loop) else "a compound statement"), key="uncond:" + role)
+        v = A.inline_temporaries(c.args[0], st, fn, only={n.id for n in ast.walk(c.args[0]) if isinstance(n, ast.Name)} - {k, "data", "np"} - _unit_like(c.args[0]))
+        if isinstance(loop.target, ast.Tuple) and len(loop.target.elts) == 2:
+            v = A._Subst({loop.target.elts[1].id: parse(dsub)}, False).visit(A.clone(v))
+        ok = False
+        for w in want[role]:
+            if "RVU" in w:
+                for un in _unit_like(c.args[0]) or {"rv_unit"}:
+                    if canon(v) == canon(parse(w.replace("RVU", un))):
+                        ok = True
+                        unit_names.add(un)
+            elif canon(v) == canon(parse(w)):
+                ok = True
+        ctx.check(R, c, "`%s` takes the matching piece of the same source" % role, ok, "appends `%s`" % A.unparse(v)[:70], key="value:" + role)
+    # the common unit: one name, assigned from the source only while still None
+    if len(unit_names) == 1:
+        un = list(unit_names)[0]
+        ru = [s for s in A.walk_local(loop) if isinstance(s, ast.Assign) and canon(s.targets[0]) == un]
+        oku = len(ru) == 1 and canon(A.inline_temporaries(ru[0].value, ru[0], fn, only={"d"})) in (canon(parse("%s.rv.unit" % dsub)), canon(parse("d.rv.unit"))) \
+            and ("+%s is None" % un) in A.term_strings(A.path_condition(ru[0], fn, inline=False))
+        ctx.check(R, loop, "one common velocity unit, fixed by the first source", oku,
+                  "`%s` is (re)assigned %s: sources stripped in different units are labelled with one unit" % (un, "on every iteration" if ru and not A.guards_of(ru[0], stop=loop) else "%d times" % len(ru)), key="unit")
+        # merged arguments: concatenate(list) [* unit]
+        wantm = {"t": ["Time(np.concatenate(ACC), format='mjd', scale='tcb')"], "rv": ["np.concatenate(ACC) * %s" % un], "err": ["np.concatenate(ACC) * %s" % un]}
+        for role, forms in wantm.items():
+            okm = any(canon(res[role]) == canon(parse(f.replace("ACC", roles[role]))) for f in forms)
+            ctx.check(R, M["stmt"], "merged `%s` = the concatenation, in source order%s" % (role, "" if role == "t" else ", re-labelled with the common unit"), okm,
+                      "merged %s = `%s`" % (role, A.unparse(res[role])[:80]), key="concat:" + role)
+    else:
+        ctx.violate(R, loop, "one common velocity unit, fixed by the first source", "velocities and errors are stripped in %s" % (sorted(unit_names) or "no common unit"), key="unit")
+    idsr = res.get("ids")
+    core = idsr
+    if isinstance(core, ast.Subscript):
+        core = core.value   # a re-alignment is judged by C08-ORDER
+    ctx.check(R, M["stmt"], "ids = the concatenation of the per-source id blocks", core is not None and canon(core) == canon(parse("np.concatenate(%s)" % roles["ids"])), "ids = `%s`" % (A.unparse(idsr)[:70] if idsr is not None else None), key="concat:ids")
     # d is data[k]
-    dd = [s for s in loop.body if isinstance(s, ast.Assign) and canon(s.targets[0]) == "d"]
-    ctx.check(R, loop, "d is the source stored under key k", len(dd) == 1 and canon(dd[0].value) == canon(parse("data[%s]" % k)), "d = %s" % (A.unparse(dd[0].value) if dd else None), key="d")
-    # the common unit: assigned only when still None
-    ru = [s for s in A.walk_local(loop) if isinstance(s, ast.Assign) and canon(s.targets[0]) == "rv_unit"]
-    oku = len(ru) == 1 and canon(ru[0].value) == canon(parse("d.rv.unit")) and [(canon(t), pol) for t, pol in A.guards_of(ru[0], stop=loop)] == [(canon(parse("rv_unit is None")), True)]
-    ctx.check(R, loop, "one common velocity unit, fixed by the first source", oku,
-              "rv_unit is (re)assigned %s: sources stripped in different units are labelled with one unit" % ("on every iteration" if ru and not A.guards_of(ru[0], stop=loop) else "%d times" % len(ru)), key="unit")
-    # concatenations
-    after = {}
-    for s in fn.body:
-        if isinstance(s, ast.Assign) and canon(s.targets[0]) in ACC and s.lineno > loop.lineno:
-            after.setdefault(canon(s.targets[0]), []).append(s)
-    wantc = {"t": "np.concatenate(t)", "rv": "np.concatenate(rv) * rv_unit", "err": "np.concatenate(err) * rv_unit", "ids": "np.concatenate(ids)"}
-    for acc in ACC:
-        ss = after.get(acc, [])
-        ok = len(ss) == 1 and canon(ss[0].value) == canon(parse(wantc[acc]))
-        if acc == "ids" and len(ss) >= 1:
-            ok = canon(ss[0].value) == canon(parse(wantc[acc]))   # a later re-alignment of ids is judged by C08-ORDER
-        ctx.check(R, ss[0] if ss else fn, "`%s` concatenated once, in source order" % acc, ok, "%s = %s" % (acc, [A.unparse(s.value)[:50] for s in ss]), key="concat:" + acc)
-    # merged object
-    rv = [c for c in A.calls_in(fn) if A.call_name(c) == "RVData"]
-    okm = len(rv) == 1 and canon(A.get_arg(rv[0], None, "t")) == canon(parse("Time(t, format='mjd', scale='tcb')")) and canon(A.get_arg(rv[0], None, "rv")) == "rv" and canon(A.get_arg(rv[0], None, "rv_err")) == "err"
-    ctx.check(R, rv[0] if rv else fn, "merged RVData(t as TCB MJD, rv, err)", okm, "merged object is `%s`" % (A.unparse(rv[0])[:80] if rv else None), key="merge")
+    dd = [s for s in loop.body if isinstance(s, ast.Assign) and isinstance(s.targets[0], ast.Name) and canon(s.value) == canon(parse(dsub))]
+    ctx.check(R, loop, "each source is looked up under its own key", bool(dd) or isinstance(loop.target, ast.Tuple), "no `d = data[k]` in the loop", key="d", nontrivial=False)
     # list -> dict keyed by position
-    en = [l for l in A.walk_local(fn) if isinstance(l, ast.For) and isinstance(l.iter, ast.Call) and A.call_name(l.iter) == "enumerate" and canon(l.iter.args[0]) == "data"]
-    okl = len(en) == 1 and len(en[0].body) == 1 and canon(en[0].body[0]) == canon(ast.parse("_d[%s] = %s" % (en[0].target.elts[0].id, en[0].target.elts[1].id)).body[0]) if en and isinstance(en[0].target, ast.Tuple) else False
-    ctx.check(R, en[0] if en else fn, "list input keyed by position (first source = smallest id = reference)", okl, "list sources are not stored under their position", key="list")
-    return fn, loop, rv[0] if rv else None
+    okl = False
+    for n in A.walk_local(fn):
+        if isinstance(n, ast.For) and isinstance(n.iter, ast.Call) and A.call_name(n.iter) == "enumerate" and isinstance(n.target, ast.Tuple) and len(n.body) == 1 and isinstance(n.body[0], ast.Assign):
+            t = n.body[0].targets[0]
+            if isinstance(t, ast.Subscript) and canon(t.slice) == n.target.elts[0].id and canon(n.body[0].value) == n.target.elts[1].id:
+                okl = True
+        if isinstance(n, ast.DictComp) and len(n.generators) == 1 and isinstance(n.generators[0].iter, ast.Call) and A.call_name(n.generators[0].iter) == "enumerate" and isinstance(n.generators[0].target, ast.Tuple):
+            i, d = [e.id for e in n.generators[0].target.elts]
+            if canon(n.key) == i and canon(n.value) == d and not n.generators[0].ifs:
+                okl = True
+        if isinstance(n, ast.Call) and A.call_name(n) == "dict" and n.args and isinstance(n.args[0], ast.Call) and A.call_name(n.args[0]) == "enumerate":
+            okl = True
+    ctx.check(R, fn, "list input keyed by position (first source = smallest id = reference)", okl, "list sources are not stored under their position", key="list")
+    return fn, loop, M["call"]
+
+
+def _unit_like(e):
+    """names used as the target unit of a to_value / to call inside e"""
+    out = set()
+    for n in ast.walk(e):
+        if isinstance(n, ast.Call) and isinstance(n.func, ast.Attribute) and n.func.attr in ("to_value", "to") and n.args and isinstance(n.args[0], ast.Name):
+            out.add(n.args[0].id)
+    return out
 
 
 def rvdata_sorts(ctx):
@@ -93,36 +180,43 @@ def check_order(ctx, fn, merged_call):
         ctx.ok(R, fn, "RVData keeps input order", "RVData.__init__ no longer sorts: concatenation order is the row order", nontrivial=False)
         return
     mstmt = A.enclosing_stmt(merged_call)
-    flow = A.Flow(fn)
+    M = analyse_merge(fn)
+    if M is None or "ids" not in M["roles"] or "t" not in M["roles"]:
+        ctx.undecided(R, fn, "ids accumulator", "roles of the merged arrays not recognised (see C08-LOCK)")
+        return
+    ids_acc, t_acc = M["roles"]["ids"], M["roles"]["t"]
+    # every expression that carries the ids array beyond the merge: the design-matrix argument and the returned tuple element
     uses = []
-    for n in A.walk_local(fn):
-        if isinstance(n, ast.Name) and n.id == "ids" and isinstance(n.ctx, ast.Load) and n.lineno > mstmt.lineno:
-            st = A.enclosing_stmt(n)
-            uses.append((n, st))
+    for c in M["tm"]:
+        uses.append((c.args[1], A.enclosing_stmt(c), "call"))
+    for s in A.walk_local(fn):
+        if isinstance(s, ast.Return) and isinstance(s.value, ast.Tuple) and len(s.value.elts) == 3 and not any(A.call_name(x) == "np.zeros" for x in ast.walk(s.value.elts[1]) if isinstance(x, ast.Call)):
+            uses.append((s.value.elts[1], s, "return"))
     n_uses = 0
-    for n, st in uses:
-        if isinstance(st, ast.Assign) and canon(st.targets[0]) == "ids":
-            continue  # a re-alignment statement itself
+    for expr, st, where_ in uses:
+        r = A.inline_temporaries(expr, st, fn)
+        if not any(isinstance(x, ast.Name) and x.id == ids_acc for x in ast.walk(r)):
+            continue
         n_uses += 1
-        r = flow.resolve(n, at=st)
+        n = expr
         txt = A.unparse(r)
-        t_at_merge = flow.resolve(ast.Name(id="t", ctx=ast.Load()), at=mstmt)
+        t_at_merge = parse("np.concatenate(%s)" % t_acc)
         aligned = _presorted(fn, mstmt)
         if isinstance(r, ast.Subscript) and isinstance(r.slice, ast.Call) and A.last_attr(r.slice) == "argsort":
             key_arr = r.slice.args[0] if r.slice.args and (A.call_name(r.slice) or "").startswith("np.") else (r.slice.func.value if isinstance(r.slice.func, ast.Attribute) else None)
             if key_arr is not None and (canon(key_arr) == canon(t_at_merge)):
                 aligned = True
-        what = "passed to %s with the merged data" % A.call_name(A.parent(n)) if isinstance(A.parent(n), ast.Call) else "returned next to the merged data"
+        what = "passed to get_trend_design_matrix with the merged data" if where_ == "call" else "returned next to the merged data"
         if aligned:
             ctx.ok(R, st, "ids %s are in the merged object's row order" % what, "re-aligned by the time argsort")
-        elif canon(r) == canon(parse("np.concatenate(ids)")) or "argsort" not in txt and "sort" not in txt:
+        elif canon(r) == canon(parse("np.concatenate(%s)" % ids_acc)) or "argsort" not in txt and "sort" not in txt:
             ctx.violate(R, st, "ids %s are in the merged object's row order" % what,
                         "`ids` keeps the concatenation order while the merged RVData is time-sorted: for interleaved surveys epochs are labelled with the wrong survey",
-                        key="ids@" + ("call" if isinstance(A.parent(n), ast.Call) else "return"))
+                        key="ids@" + where_)
         else:
             ctx.violate(R, st, "ids %s are in the merged object's row order" % what,
                         "`ids` is re-ordered as `%s`, which is not the argsort of the merged times: labels and observations are permuted differently" % txt[:80],
-                        key="ids-reordered@" + ("call" if isinstance(A.parent(n), ast.Call) else "return"))
+                        key="ids-reordered@" + where_)
     ctx.floor(R, n_uses, 2)
 
 
@@ -134,6 +228,22 @@ def _presorted(fn, mstmt):
     p = canon(perm[0].targets[0])
     done = {canon(s.targets[0]) for s in fn.body if isinstance(s, ast.Assign) and isinstance(s.value, ast.Subscript) and canon(s.value.slice) == p and canon(s.value.value) == canon(s.targets[0]) and s.lineno < mstmt.lineno}
     return set(ACC) <= done
+
+
+def count_guard(vp):
+    """the raising guard `number of distinct source ids - 1 != n_offsets` (ids identified by role, not by name)"""
+    M = analyse_merge(vp)
+    cands = ["ids"]
+    if M and M["resolved"].get("ids") is not None:
+        core = M["resolved"]["ids"]
+        while isinstance(core, ast.Subscript):
+            core = core.value
+        cands.append(A.unparse(core))
+    for c in cands:
+        g = A.find_raising_guard(vp, A.nnf_of_src("len(np.unique(%s)) - 1 != n_offsets" % c))
+        if g is not None:
+            return g
+    return None
 
 
 def check_col(ctx):
@@ -189,9 +299,9 @@ def check_col(ctx):
     ctx.check(R, tf, "trend matrix = [constant/offset columns | (t - t_ref)^1.. ]", okt, why, key="trend")
     # count check dominates the merge
     vp = ctx.prog.func(DH, "validate_prepare_data", R)
-    g = [s for s in vp.body if isinstance(s, ast.If) and A.always_raises(s.body) and A.nnf(s.test) == A.nnf_of_src("len(np.unique(ids)) - 1 != n_offsets")]
+    g = count_guard(vp)
     rv = [A.enclosing_stmt(c) for c in A.calls_in(vp) if A.call_name(c) == "RVData"]
-    ctx.check(R, vp, "source-count check precedes the merge", len(g) == 1 and bool(rv) and g[0].lineno < rv[0].lineno, "no dominating `len(unique(ids)) - 1 != n_offsets -> raise`", key="count")
+    ctx.check(R, vp, "source-count check precedes the merge", g is not None and bool(rv) and A.dominates(g, rv[0]), "no dominating `len(unique(ids)) - 1 != n_offsets -> raise`", key="count")
     tm = [c for c in A.calls_in(vp) if A.call_name(c) == "get_trend_design_matrix"]
     okc = all(canon(c.args[0]) in ("all_data", "data") and canon(c.args[2]) == "poly_trend" for c in tm) and len(tm) == 2
     multi = [c for c in tm if canon(c.args[0]) == "all_data"]
